@@ -10,6 +10,29 @@ import warnings
 from engine.report import run_check
 
 
+def _watchdog(pid, seconds):
+    """a check must terminate: native evaluations of library code are individually time-limited where non-termination is the property (C15); everywhere
+    else a run that exceeds the overall limit (code under test that does not return) is reported as a crash of the run — exit 3, not a verdict"""
+    import signal
+
+    def fire(signum, frame):
+        sys.stdout.write(f"CRASH in check {pid}: no result within {seconds} s (code under test does not terminate?) (exit 3: not a verdict)\n")
+        sys.stdout.flush()
+        try:
+            os.killpg(os.getpgid(0), signal.SIGTERM)
+        except Exception:  # pylint: disable=broad-except
+            pass
+        os._exit(3)
+
+    if hasattr(signal, "SIGALRM") and seconds > 0:
+        try:
+            os.setpgid(0, 0)
+        except Exception:  # pylint: disable=broad-except
+            pass
+        signal.signal(signal.SIGALRM, fire)
+        signal.alarm(seconds)
+
+
 def main(argv=None):
     ap = argparse.ArgumentParser(prog="vv")
     sub = ap.add_subparsers(dest="cmd", required=True)
@@ -28,6 +51,7 @@ def main(argv=None):
     seed = int(os.environ.get("VERIF_SEED", "0") or 0)
     if args.cmd == "check":
         os.environ["VERIF_TIER"] = args.tier
+        _watchdog(args.pid, int(os.environ.get("VERIF_CHECK_TIMEOUT_S", "1500" if args.tier == "quick" else "7200")))
         mod = importlib.import_module(f"checks.{args.pid.lower()}")
         return run_check(mod.main, args.pid, args.tier, seed)
     if args.cmd == "replay":
